@@ -291,7 +291,6 @@ func searchX(fn *ssa.Function, from ssa.Instruction, edges EdgeFilter, stop, tar
 	return nil, nil
 }
 
-
 // HelperRoot climbs from a single-call-site helper to the function that
 // (transitively) calls it, as long as keep(f) is false; it returns the first
 // function for which keep holds, or the outermost one.
@@ -383,4 +382,136 @@ func BoolHelperUnder(call *ssa.Call, assumedFalse func(ssa.Value) bool) (canTrue
 		}
 	}
 	return
+}
+
+// CallbackUse describes a function literal handed directly to a module
+// function that does nothing with the corresponding parameter but call it.
+type CallbackUse struct {
+	Site   *ssa.Call      // the call passing the literal
+	Callee *ssa.Function  // the function receiving it
+	Param  *ssa.Parameter // its parameter
+	Calls  []*ssa.Call    // the calls of the parameter inside Callee
+}
+
+// CallbackOf reports how the literal created by mc is used, if its only use
+// is to be passed as an argument to a statically known module function whose
+// parameter is only ever called (not stored, passed on, deferred or run as a
+// goroutine).
+func CallbackOf(mc *ssa.MakeClosure) *CallbackUse {
+	refs := mc.Referrers()
+	if refs == nil {
+		return nil
+	}
+	var use *CallbackUse
+	for _, r := range *refs {
+		switch u := r.(type) {
+		case *ssa.DebugRef:
+		case *ssa.Call:
+			cal := Callee(&u.Call)
+			if cal == nil || cal.Blocks == nil || use != nil || u.Call.Value == ssa.Value(mc) {
+				return nil
+			}
+			idx := -1
+			for i, a := range u.Call.Args {
+				if a == ssa.Value(mc) {
+					if idx >= 0 {
+						return nil
+					}
+					idx = i
+				}
+			}
+			if idx < 0 || idx >= len(cal.Params) {
+				return nil
+			}
+			prm := cal.Params[idx]
+			cu := &CallbackUse{Site: u, Callee: cal, Param: prm}
+			prefs := prm.Referrers()
+			if prefs == nil {
+				return nil
+			}
+			for _, pr := range *prefs {
+				switch pu := pr.(type) {
+				case *ssa.DebugRef:
+				case *ssa.Call:
+					if pu.Call.Value != ssa.Value(prm) {
+						return nil
+					}
+					for _, a := range pu.Call.Args {
+						if a == ssa.Value(prm) {
+							return nil
+						}
+					}
+					cu.Calls = append(cu.Calls, pu)
+				default:
+					return nil
+				}
+			}
+			use = cu
+		default:
+			return nil
+		}
+	}
+	return use
+}
+
+// MakeClosureOf finds the instruction creating literal f in its parent.
+func MakeClosureOf(f *ssa.Function) *ssa.MakeClosure {
+	par := f.Parent()
+	if par == nil {
+		return nil
+	}
+	var mk *ssa.MakeClosure
+	Instrs(par, func(x ssa.Instruction) {
+		if mc, ok := x.(*ssa.MakeClosure); ok && mc.Fn == f {
+			mk = mc
+		}
+	})
+	return mk
+}
+
+// LiteralThroughHelper returns the fields of the struct literal v denotes:
+// a literal built in place, or the single literal a module helper builds and
+// returns.  mapv translates a value of the helper's body into the caller's
+// terms (a parameter of the helper becomes the argument of this call; other
+// values are returned as their Origin).
+func LiteralThroughHelper(v ssa.Value) (fields map[string]ssa.Value, mapv func(ssa.Value) ssa.Value, ok bool) {
+	ident := func(x ssa.Value) ssa.Value { return Origin(x) }
+	if f, _, isLit := LiteralFields(Origin(v)); isLit {
+		return f, ident, true
+	}
+	call, idx := TupleCall(v)
+	if call == nil {
+		return nil, nil, false
+	}
+	cal := Callee(&call.Call)
+	if cal == nil || cal.Blocks == nil || !IsHelper(call.Parent(), cal) {
+		return nil, nil, false
+	}
+	inner, _ := ThroughHelper(v, func(g *ssa.Function) bool { return g == cal })
+	if inner == nil {
+		return nil, nil, false
+	}
+	_ = idx
+	f, _, isLit := LiteralFields(Origin(inner))
+	if !isLit {
+		return nil, nil, false
+	}
+	mapv = func(x ssa.Value) ssa.Value {
+		o := Origin(x)
+		if al, isAl := o.(*ssa.Alloc); isAl {
+			// a spilled parameter (value receiver whose field is addressed)
+			if sts := CellStores(al); len(sts) == 1 {
+				o = Origin(sts[0].Val)
+			}
+		}
+		if prm, isP := o.(*ssa.Parameter); isP && prm.Parent() == cal {
+			for i, q := range cal.Params {
+				if q == prm && i < len(call.Call.Args) {
+					return Origin(call.Call.Args[i])
+				}
+			}
+		}
+		return o
+	}
+	return f, mapv, true
 }
